@@ -115,6 +115,7 @@ struct ExecImage {
   uint64_t mask = 0;
   unsigned umask_ = 022;
   uint8_t disp[65] = { 0 };   // after exec reset
+  uint32_t sa_flags[65] = { 0 };  // (exec clears them all; a forked copy keeps whatever the library left)
   int64_t t_ns = 0;
   bool forked_only = false;   // fork mode: no exec happened
 };
@@ -147,6 +148,7 @@ struct Proc {
   int cwd = 0;
   uint64_t mask = 0;
   uint8_t disp[65] = { 0 };
+  uint32_t sa_flags[65] = { 0 };
   uint64_t rlim_cur = 1024, rlim_max = 4096;
   unsigned umask_ = 022;
   int wstatus = 0;
@@ -168,6 +170,7 @@ struct Proc {
   int handle = -1;             // harness handle that forked it
   int start_op = -1;
   int reaps = 0;
+  bool auto_reaped = false;    // collected by "somebody else" (injected ECHILD), not by a wait of the library
   bool err_merged = false;     // at image creation descriptor 2 shared the open file description of descriptor 1
   bool child_phase = false;    // still running reproc's child-side code
   bool is_caller = false;
